@@ -15,6 +15,9 @@ import (
 	"golang.org/x/tools/go/ssa"
 )
 
+// declined is returned by an external that wants the real body to run.
+type declined struct{}
+
 type targetPanic struct {
 	v value // an iface
 }
@@ -518,8 +521,11 @@ func (ex *Exec) callSSA(caller *frame, pos token.Pos, fn *ssa.Function, args []v
 	if fn.Parent() == nil {
 		name := fn.String()
 		if ext, ok := ex.prog.externals[name]; ok {
-			ex.noteFn(fn, true)
-			return ext(ex, fr, args)
+			r := ext(ex, fr, args)
+			if _, no := r.(declined); !no {
+				ex.noteFn(fn, true)
+				return r
+			}
 		}
 		if fn.Blocks == nil {
 			// synthetic wrappers and instantiations are built lazily by go/ssa; a
